@@ -394,7 +394,51 @@ func runSolver(ctx context.Context, cfg solverCfg, file string, timeoutS int) So
 }
 
 // Discharge runs the query. Fast path: z3 4.8.12 alone with a short limit; then a race.
+// CrossCheck (thorough tier): an obligation that one solver proves is handed to a solver of another family
+// (z3 4.8 <-> z3 5.1 / cvc5) as well. A second `unsat` is recorded as a confirmation; a `sat` against an
+// `unsat` is a disagreement between solvers and is reported as an engine problem, never as a proof.
+var CrossCheck bool
+
+// crossCheck returns "confirmed", "unconfirmed" (the other solvers gave up) or "disagree".
+func crossCheck(first SolverResult, file string, timeoutS int) (string, []SolverResult) {
+	var tried []SolverResult
+	order := []int{1, 2, 0} // z3 5.1, cvc5, z3 4.8
+	for _, i := range order {
+		cfg := solverCfgs[i]
+		if strings.HasPrefix(first.Solver, cfg.name) || (strings.HasPrefix(first.Solver, "z3-4.8.12") && cfg.name == "z3-4.8.12") {
+			continue
+		}
+		r := runSolver(context.Background(), cfg, file, timeoutS)
+		tried = append(tried, r)
+		if r.Status == "unsat" {
+			return "confirmed", tried
+		}
+		if r.Status == "sat" {
+			return "disagree", tried
+		}
+	}
+	return "unconfirmed", tried
+}
+
 func Discharge(file string, timeoutS int) (SolverResult, []SolverResult) {
+	res, all := discharge1(file, timeoutS)
+	if CrossCheck && res.Status == "unsat" && res.Solver != "simplifier" {
+		verdict, tried := crossCheck(res, file, timeoutS)
+		all = append(all, tried...)
+		switch verdict {
+		case "confirmed":
+			res.Output = "cross-check: confirmed by " + tried[len(tried)-1].Solver
+		case "disagree":
+			return SolverResult{Status: "disagree", Solver: res.Solver + " vs " + tried[len(tried)-1].Solver, Time: res.Time,
+				Output: "solvers disagree: " + res.Solver + " says unsat, " + tried[len(tried)-1].Solver + " says sat"}, all
+		default:
+			res.Output = "cross-check: unconfirmed"
+		}
+	}
+	return res, all
+}
+
+func discharge1(file string, timeoutS int) (SolverResult, []SolverResult) {
 	var all []SolverResult
 	quick := 2
 	if timeoutS < quick {
